@@ -124,7 +124,8 @@ impl VarIntEncoder {
             VarIntStrategy::Zigzag => self.encode_zigzag_sequence_i64(values),
             VarIntStrategy::Delta => self.encode_delta_sequence_i64(values),
             VarIntStrategy::GroupVarint => {
-                let unsigned: Vec<u64> = values.iter().map(|&v| v as u64).collect();
+                // zigzag: small negative values stay small (a plain cast needs 8 bytes)
+                let unsigned: Vec<u64> = values.iter().map(|&v| ((v << 1) ^ (v >> 63)) as u64).collect();
                 self.encode_group_varint_u64(&unsigned)
             },
             VarIntStrategy::PrefixFree => self.encode_prefix_free_sequence_i64(values),
@@ -183,7 +184,7 @@ impl VarIntEncoder {
             VarIntStrategy::Delta => self.decode_delta_sequence_i64(data),
             VarIntStrategy::GroupVarint => {
                 let unsigned = self.decode_group_varint_u64(data)?;
-                Ok(unsigned.into_iter().map(|v| v as i64).collect())
+                Ok(unsigned.into_iter().map(|v| ((v >> 1) as i64) ^ (-((v & 1) as i64))).collect())
             },
             VarIntStrategy::PrefixFree => self.decode_prefix_free_sequence_i64(data),
             VarIntStrategy::Compact => self.decode_compact_sequence_i64(data),
@@ -529,6 +530,12 @@ impl VarIntEncoder {
             let mut group_data = Vec::new();
             
             for (i, &value) in chunk.iter().enumerate() {
+                // The selector has two bits per value: 1..=4 bytes
+                if value > u32::MAX as u64 {
+                    return Err(ZiporaError::invalid_data(
+                        "Group varint encodes values up to 32 bits"
+                    ));
+                }
                 let bytes_needed = if value == 0 {
                     1
                 } else {
